@@ -62,6 +62,11 @@ def common(res, pid):
                         "floats are not modelled (NaN-free floats embed order-isomorphically into the integers the model uses; not exercised)"]
     vlib.build_coq()
     ths, rep = vlib.check_props(pid)
+    if pid == "C01":
+        # the same statements from the invocation's tokens (parser + expander + semantics composed)
+        ths2, rep2 = vlib.check_props("C01e")
+        ths = ths + ths2
+        rep = {"closed_under_global_context": rep["closed_under_global_context"] + rep2["closed_under_global_context"], "axioms": rep["axioms"] + rep2["axioms"]}
     res.obligations += ths
     res.discharged += ths
     res.coverage["print_assumptions"] = rep
